@@ -100,11 +100,19 @@ def build(p):
 
         st = F.feature_settings(p.get("fam", "VIJ"), normalize=False).nldf_settings
         cls = P.NLDFGaussianPlan if p.get("plan", "gaussian") == "gaussian" else P.NLDFSplinePlan
+        kwp = {}
+        if p.get("dense"):
+            kwp["spline_size"] = 19  # denser than the 7-point exponent ladder
+        if p.get("wide"):
+            kwp["raise_large_expnt_error"] = False  # documented option: exponents above the ladder are accepted
+        if cls is P.NLDFGaussianPlan:
+            kwp.pop("spline_size", None)
         plan = cls(st, p.get("nspin", 1), 0.1, 3.0, 7, coef_order=p.get("order", "gq"),
-                   alpha_formula=p.get("formula", "etb"), use_smooth_expnt_cutoff=p.get("smooth", False))
+                   alpha_formula=p.get("formula", "etb"), use_smooth_expnt_cutoff=p.get("smooth", False), **kwp)
         n = p["n"]
         rng = np.random.RandomState(77 + seed)
-        rho = np.exp(np.linspace(np.log(1e-3), np.log(0.8), n))
+        # "wide": densities whose exponents run from far below the first to far above the last ladder point
+        rho = np.exp(np.linspace(np.log(1e-3), np.log(3e4 if p.get("wide") else 0.8), n))
         sigma = (0.3 * rho ** (4.0 / 3)) ** 2 * (1 + rng.rand(n))
         tau = sigma / (8 * rho) + 2.871 * rho ** (5.0 / 3) * (0.3 + rng.rand(n))
         i = p.get("i", -1)
@@ -298,6 +306,11 @@ def entry_table(tier):
                         for n in (3, 8):
                             T.append({"entry": "plan_coefs", "plan": plan, "order": order, "formula": formula, "fam": fam, "i": i, "n": n})
     T.append({"entry": "plan_coefs", "plan": "gaussian", "order": "gq", "formula": "etb", "fam": "VIJ", "i": -1, "n": 5, "smooth": True})
+    # dense spline tables and accepted out-of-ladder exponents (guard switched off)
+    for plan, order, dense in (("spline", "gq", True), ("spline", "qg", True), ("spline", "gq", False), ("gaussian", "gq", False), ("gaussian", "qg", False)):
+        for i in (-1, 0):
+            T.append({"entry": "plan_coefs", "plan": plan, "order": order, "formula": "etb", "fam": "VIJ", "i": i, "n": 9, "dense": dense, "wide": True})
+    T.append({"entry": "plan_coefs", "plan": "spline", "order": "gq", "formula": "zexp", "fam": "VJ", "i": -1, "n": 9, "dense": True})
     T.append({"entry": "plan_coefs", "plan": "spline", "order": "qg", "formula": "zexp", "fam": "VJ", "i": 1, "n": 5, "smooth": True, "nspin": 2})
     for mol in ("HF", "H2O"):
         for fam in ("SDMX", "SDMXG1", "SDMXFull"):
